@@ -142,6 +142,21 @@ def run(module, cfg=None, workers=1, timeout=600, env=None, coverage=False, simu
         seed=None, extra=None, xss="256m", xmx=None, keep=False, deadlock=None):
     """Run TLC on spec/<module>.tla with spec/<cfg>.  Returns TlcResult; raises TlcError on time-out or when the
     JVM could not even parse the specification."""
+    # mutation audits and seed sweeps (VERIF_AUDIT) re-run the same design models on an unchanged spec many times: their
+    # output is cached under out/ keyed by the content of the specification; evidence runs never use the cache
+    cache = None
+    if os.environ.get("VERIF_AUDIT") and not env and not simulate and not module.startswith("Trace") and cfg and "measured" not in cfg:
+        import hashlib
+        h = hashlib.sha256()
+        for f in sorted(os.listdir(SPEC)):
+            if f.endswith((".tla", ".cfg")):
+                h.update(f.encode())
+                h.update(open(os.path.join(SPEC, f), "rb").read())
+        h.update(repr((module, cfg, coverage, depth, seed, extra, deadlock)).encode())
+        cache = os.path.join(OUT, "tlc_cache", h.hexdigest()[:32] + ".json")
+        if os.path.exists(cache):
+            c = json.load(open(cache))
+            return TlcResult(c["rc"], c["out"], c["wall"])
     run_id = "%s-%s" % (module, uuid.uuid4().hex[:8])
     meta = os.path.join(OUT, "tlc", run_id)
     os.makedirs(meta, exist_ok=True)
@@ -179,6 +194,9 @@ def run(module, cfg=None, workers=1, timeout=600, env=None, coverage=False, simu
     if not keep:
         shutil.rmtree(meta, ignore_errors=True)
     res = TlcResult(p.returncode, p.stdout, wall)
+    if cache and res.ok:
+        os.makedirs(os.path.dirname(cache), exist_ok=True)
+        json.dump({"rc": p.returncode, "out": p.stdout, "wall": wall}, open(cache, "w"))
     if "Parsing or semantic analysis failed" in p.stdout or "Semantic errors" in p.stdout or \
             "Lexical error" in p.stdout or "***Parse Error***" in p.stdout:
         raise TlcError("SANY rejected %s:\n%s" % (module, p.stdout[-3000:]))
